@@ -29,6 +29,9 @@ def run_cli(workdir, jobs, timeout=15, workers=None):
                 if content is None:
                     os.makedirs(p, exist_ok=True)
                     continue
+                if isinstance(content, dict) and "symlink" in content:          # a symbolic link (its target need not exist)
+                    os.symlink(content["symlink"], p)
+                    continue
                 mode = "wb" if isinstance(content, bytes) else "w"
                 with open(p, mode) as f:
                     f.write(content)
